@@ -162,7 +162,7 @@ def check_program(ctx, prog, layout, queries, scratch):
         pnames = {pn: {e.name.lower() for e in prog.ents if e.scope is not None and e.scope.unit() is sc} for pn, sc in progs.items()}
         have = [h for h in have if not (h[1] in progs and h[0] in pnames[h[1]] and q.lower() in h[0])]
         # a prototype inside an (unnamed) abstract interface block is not declared *directly* in the module: either way
-        protos = {(m[0].lower(), (m[1] or "").lower(), m[2]) for m in members if m[4].kind == "proto"}
+        protos = {(m[0].lower(), (m[1] or "").lower(), m[2]) for m in members if m[4].kind == "proto" or m[4].attrs.get("interface_body")}
         want = [w for w in want if w not in protos]
         have = [h for h in have if h not in protos]
         if want != have:
@@ -203,7 +203,7 @@ def run(ctx):
         r = fmodel.render(prog, dataclasses.replace(layout, split_every=0, join_every=0, indent=min(layout.indent, 4)))
         return {"files": r.files, "queries": qs}
 
-    ctx.hyp(case_st(), oracle, max_examples=ctx.n(60, 3000), case_of=case_of, collect=bool(os.environ.get("VERIF_COLLECT")))
+    ctx.hyp(case_st(), oracle, max_examples=ctx.n(160, 3000), case_of=case_of, collect=bool(os.environ.get("VERIF_COLLECT")))
     for sig, v in ctx.violations.items():
         v["case"]["signature"] = sig
         v["case"]["what"] = v["what"]
